@@ -10,11 +10,12 @@ const RULE: &str = "a case is a scenario interpreted against a real emit_otlp em
 struct Guard {
     failed: AtomicBool,
     shrink_runs: AtomicU32,
+    shrink_started: std::sync::Mutex<Option<std::time::Instant>>,
 }
 
 impl Guard {
     fn new() -> Guard {
-        Guard { failed: AtomicBool::new(false), shrink_runs: AtomicU32::new(0) }
+        Guard { failed: AtomicBool::new(false), shrink_runs: AtomicU32::new(0), shrink_started: std::sync::Mutex::new(None) }
     }
 
     fn check(&self, s: &Session, sc: &Scenario, cx: &mut Cx) -> Res {
@@ -22,7 +23,8 @@ impl Guard {
             // proptest is shrinking a failure of this generator: allow a bounded number of further
             // evaluations (none for stall scenarios), then report "passes" so the current candidate stays
             let n = self.shrink_runs.fetch_add(1, Ordering::SeqCst);
-            if n >= 24 || sc.has_stall() {
+            let started = *self.shrink_started.lock().unwrap().get_or_insert_with(std::time::Instant::now);
+            if n >= 40 || sc.has_stall() || started.elapsed() > std::time::Duration::from_secs(60) {
                 return Ok(());
             }
         }
